@@ -104,6 +104,45 @@ def run_config(cfg, res):
         for j in range(i + 1, n):
           if not one([stream[:i], stream[i:j], stream[j:]], 'cut2@%d,%d' % (i, j)):
             return
+    # flow control: the receivers are paused while a segment is being decoded (cache or relay queue full) and resumed
+    # afterwards; everything that had already arrived must still be delivered although no further byte follows
+    if len(exp) >= 2:
+      from carbon import events as _ev
+      for k in range(3):
+        at = r.randrange(1, len(exp) + 1)
+        segs = proto.cut(stream, sorted(set(r.randrange(1, n) for _ in range(r.choice([0, 1, 3]))))) if n > 2 else [stream]
+        state_ = dict(n=0, paused=False)
+
+        def pauser(metric, datapoint):
+          state_['n'] += 1
+          if state_['n'] == at and not state_['paused']:
+            state_['paused'] = True
+            _ev.pauseReceivingMetrics()
+        _ev.metricReceived.addHandler(pauser)
+        p1 = cls()
+        from twisted.internet.testing import StringTransport
+        p1.makeConnection(StringTransport())
+        rec.take()
+        exc = None
+        try:
+          for sg in segs:
+            p1.dataReceived(sg)      # bytes the kernel had already handed over
+            if state_['paused']:
+              _ev.resumeReceivingMetrics()
+              state_['paused'] = False
+        except Exception as e:
+          exc = e
+        finally:
+          _ev.metricReceived.removeHandler(pauser)
+          if state_['paused']:
+            _ev.resumeReceivingMetrics()
+        got = rec.take()
+        proto.close(p1)
+        res.count('flow_control_pause_sessions')
+        why = ('exception %r' % exc) if exc else proto.same_points(got, exp)
+        if why:
+          report('mismatch/pause-during-segment', why, stream, exp, 'pause at datapoint %d of %d, %d segments' % (at, len(exp), len(segs)), got)
+          return
     # two connections fed alternately with differently cut copies of the stream: per-connection state must not mix
     if n > 4:
       from twisted.internet.testing import StringTransport
